@@ -79,11 +79,19 @@ func runC14(c *ctxT) {
 		rr := c.rng.Fork()
 		buf := rr.Bytes(1 + rr.Intn(40))
 		reply := rr.Bytes(1 + rr.Intn(60))
-		err, written := mbapp.VerifLateReply(buf, reply)
-		st := "error"
-		if err == nil {
-			st = "nil"
-		}
+		st, written := "error", false
+		func() {
+			defer func() {
+				if e := recover(); e != nil {
+					st = "panic"
+				}
+			}()
+			var err error
+			err, written = mbapp.VerifLateReply(buf, reply)
+			if err == nil {
+				st = "nil"
+			}
+		}()
 		c.emit(sx.L(sx.S("late"), sx.S("mbapp-ask"), sx.I(i)), sx.L(sx.S(st), sx.I(boolInt(written))))
 		c.count("own/late-reply")
 	}
